@@ -40,7 +40,9 @@ def main():
     jobs = []
     for be in FIELDS:
         for s in range(4 if tier == "quick" else 10):
-            jobs.append(dict(seed="%d/%s/%s/%d" % (common.seed(), PROP, be, s), backend=be, n=n, scripts=1 if tier == "quick" else 3))
+            nsh = 4 if tier == "quick" else 10
+            jobs.append(dict(seed="%d/%s/%s/%d" % (common.seed(), PROP, be, s), backend=be, n=n, scripts=1 if tier == "quick" else 3,
+                             sizes=[[npub, (npub * 7 + 3) % 5, (npub * 3) % 4] for npub in range(s, 131, nsh)]))
     R = common.Run(PROP, "translation_validation", RULE)
     boot.spread_pyflags(jobs)
     for job, res, err in shard.run_jobs("vf.checks.C11", "worker", jobs, timeout=3600, nproc=16, shims=("flatbuffers",)):
@@ -186,8 +188,26 @@ def worker(job):
     rnd = random.Random(job["seed"])
     home = os.getcwd()
     reuse = tempfile.mkdtemp(prefix="c11same-", dir=home)
-    for n in range(job["n"]):
+    sweep = job.get("sizes") or []
+    for n in range(job["n"] + len(sweep)):
         hostile = rnd.random() < 0.5
+        if n >= job["n"]:
+            npub, npriv, ncons = sweep[n - job["n"]]
+            src, inputs = realrun.sized_program(npub, npriv, ncons)
+            out = realrun.run_src(rt, src, inputs, 16, 8)
+            if out.exc is not None:
+                R.violation("sized-program-raised", "a program with %d public and %d private values raised %r" % (npub, npriv, out.exc), src=src)
+                continue
+            snap = realrun.boundary_snapshot(rt)
+            wd = tempfile.mkdtemp(prefix="cszs-", dir=home)
+            try:
+                prove_in(rt, wd, home)
+                validate(R, snap, wd, dict(src=src, inputs=inputs, public_values=npub, private_values=npriv, constraints=len(snap["constraints"])), be)
+            finally:
+                shutil.rmtree(wd, ignore_errors=True)
+            R.count("sizes_swept")
+            R.case(cell="%s|size-sweep|pub%d" % (be, min(npub // 32, 4)), key=(be, "size", npub, npriv, ncons))
+            continue
         if n == 1:
             src, inputs = "x = PrivVal(I[0])\ny = PubVal(I[1])\nfor k in range(%d):\n    y = y * x + k\nz = y.val()\n" % rnd.randint(4200, 9000), [3, -2]
             bl, res, klass = 16, 8, "large"
